@@ -17,8 +17,15 @@ CONSTANTS MaxSteps, DevAvg, DevArr, DevStale,
           DevEmpty      \* open finding filter.empty-array (decompress wipes a /Filter [] stream): the code as it
                         \* is = the other switches FALSE and this one TRUE (MC_StreamOps_devEmpty.cfg)
 
-VARIABLES ss, last, steps
-vars == <<ss, last, steps>>
+CONSTANTS Disturbs,     \* TRUE: between any two calls the thread may decode arbitrary other streams (action Disturb),
+                        \*       among them streams whose decode fails at every possible point; decompress then runs on
+                        \*       the thread-aware layer (ImplDecompressT)
+          DevRows       \* the PNG row buffers survive a failed decode (Codecs, "Thread history"); TLC must refute it
+
+VARIABLES ss, last, steps,
+          rows,         \* the thread's scratch state
+          dk            \* kind of the disturbance that left `rows` dirty ("none" = clean)
+vars == <<ss, last, steps, rows, dk>>
 
 Compressible == [i \in 1..40 |-> IF i % 2 = 0 THEN 7 ELSE 9]
 Contents == {<<>>, <<3, 1, 2>>, Compressible}
@@ -48,29 +55,63 @@ Starts ==
      Zero("array", "none", <<3, 1, 2>>), Zero("array", "array", Compressible), Zero("null", "none", Compressible),
      S0(<<>>, "dict", <<P12>>, Compressible, TRUE)}          \* no filter, left-over DecodeParms (class compress.stale-decodeparms)
 
-NoOp == [op |-> "init", i |-> 0, pre |-> <<>>, arg |-> <<>>]
+NoOp == [op |-> "init", i |-> 0, pre |-> <<>>, arg |-> <<>>, dk |-> "none"]
+
+\* streams the thread may have decoded in between: a legal predictor stream, and streams whose decode fails -
+\* the PNG data PD cut at every offset, a bad filter-type byte in row k, a cut zlib stream, a bad LZW code,
+\* a bad ASCII85 group in front of a predictor stage
+P3 == [present |-> TRUE, pred |-> 12, colors |-> 1, bpc |-> 8, columns |-> 3, early |-> 1]
+PD == PngEncode(<<10, 11, 12, 1, 1, 1>>, 1, 3, <<2, 2>>)
+D(kind, s) == [kind |-> kind, s |-> s]
+Disturbances ==
+    {D("ok", S0(<<Flate>>, "dict", <<P3>>, ZStored(PD, 65535), TRUE))}
+    \cup {D("png.cut-row", S0(<<Flate>>, "dict", <<P3>>, ZStored(SubSeq(PD, 1, o), 65535), TRUE)) : o \in 1..(Len(PD) - 1)}
+    \cup {D("png.bad-type", S0(<<Flate>>, "dict", <<P3>>, ZStored([PD EXCEPT ![(k - 1) * 4 + 1] = 9], 65535), TRUE)) : k \in 1..2}
+    \cup {D("zlib.cut", S0(<<Flate>>, "dict", <<P3>>, SubSeq(ZStored(PD, 5), 1, 18), TRUE)),
+          D("lzw.bad-code", S0(<<Lzw>>, "dict", <<P3>>, <<128, 255, 255>>, TRUE)),
+          D("a85.bad-group", S0(<<A85, Flate>>, "array", <<DefaultParms, P3>>, <<117, 117, 117, 117, 117, 126, 62>>, TRUE))}
 
 Init ==
     /\ \E a \in Starts : ss = <<a, S0(<<>>, "none", <<>>, Compressible, FALSE)>>
     /\ last = NoOp
     /\ steps = 0
+    /\ rows = CleanRows
+    /\ dk = "none"
 
 Step(op, i, arg, new) ==
     /\ steps < MaxSteps
     /\ ss' = new
-    /\ last' = [op |-> op, i |-> i, pre |-> ss, arg |-> arg]
+    /\ last' = [op |-> op, i |-> i, pre |-> ss, arg |-> arg, dk |-> dk]
     /\ steps' = steps + 1
 
-SetContent == \E i \in 1..2, b \in Contents : Step("set_content", i, b, [ss EXCEPT ![i] = ImplSetContent(ss[i], b)])
-SetPlainContent == \E i \in 1..2, b \in Contents : Step("set_plain_content", i, b, [ss EXCEPT ![i] = ImplSetPlain(ss[i], b)])
-Compress == \E i \in 1..2 : \E c \in Candidates(ss[i].content) :
-                Step("compress", i, <<>>, [ss EXCEPT ![i] = ImplCompress(ss[i], c, DevStale)])
-Decompress == \E i \in 1..2 : Step("decompress", i, <<>>, [ss EXCEPT ![i] = ImplDecompress(ss[i], DevAvg, DevArr, FALSE, DevEmpty)])
-DocCompress == \E c1 \in Candidates(ss[1].content), c2 \in Candidates(ss[2].content) :
-                Step("doc_compress", 0, <<>>, ImplDocCompress(ss, <<c1, c2>>, DevStale))
-DocDecompress == Step("doc_decompress", 0, <<>>, ImplDocDecompress(ss, DevAvg, DevArr, FALSE, DevEmpty))
+Calm == UNCHANGED <<rows, dk>>          \* operations that decode nothing
+\* one decompress on this thread: [s, rows]
+DecompOne(s, rw) == IF Disturbs THEN ImplDecompressT(s, rw, DevRows)
+                    ELSE [s |-> ImplDecompress(s, DevAvg, DevArr, FALSE, DevEmpty), rows |-> rw]
+After(rw) == /\ rows' = rw
+             /\ dk' = IF rw = CleanRows THEN "none" ELSE dk
 
-Next == SetContent \/ SetPlainContent \/ Compress \/ Decompress \/ DocCompress \/ DocDecompress
+SetContent == \E i \in 1..2, b \in Contents : Step("set_content", i, b, [ss EXCEPT ![i] = ImplSetContent(ss[i], b)]) /\ Calm
+SetPlainContent == \E i \in 1..2, b \in Contents : Step("set_plain_content", i, b, [ss EXCEPT ![i] = ImplSetPlain(ss[i], b)]) /\ Calm
+Compress == \E i \in 1..2 : \E c \in Candidates(ss[i].content) :
+                Step("compress", i, <<>>, [ss EXCEPT ![i] = ImplCompress(ss[i], c, DevStale)]) /\ Calm
+Decompress == \E i \in 1..2 : LET d == DecompOne(ss[i], rows) IN
+                Step("decompress", i, <<>>, [ss EXCEPT ![i] = d.s]) /\ After(d.rows)
+DocCompress == \E c1 \in Candidates(ss[1].content), c2 \in Candidates(ss[2].content) :
+                Step("doc_compress", 0, <<>>, ImplDocCompress(ss, <<c1, c2>>, DevStale)) /\ Calm
+DocDecompress == LET d1 == DecompOne(ss[1], rows) d2 == DecompOne(ss[2], d1.rows) IN      \* in object order, errors swallowed
+                Step("doc_decompress", 0, <<>>, <<d1.s, d2.s>>) /\ After(d2.rows)
+
+\* the thread decodes some other stream (its result is thrown away; only the scratch state can carry over)
+Disturb ==
+    /\ Disturbs
+    /\ \E d \in Disturbances :
+          LET r == ImplViewT(d.s, rows, DevRows) IN
+          /\ Step("disturb", 0, <<>>, ss)
+          /\ rows' = r.rows
+          /\ dk' = IF r.rows = CleanRows THEN "none" ELSE d.kind
+
+Next == SetContent \/ SetPlainContent \/ Compress \/ Decompress \/ DocCompress \/ DocDecompress \/ Disturb
 
 Spec == Init /\ [][Next]_vars
 
@@ -87,15 +128,23 @@ Good4(i) ==
            [] last.op = "set_plain_content" -> SetPlainOK(last.pre[i], last.arg, ss[i])
            [] last.op \in {"compress", "doc_compress"}     -> CompressOK(last.pre[i], ss[i])
            [] last.op \in {"decompress", "doc_decompress"} -> DecompressOK(last.pre[i], ss[i])
+           [] last.op = "disturb" -> ss[i] = last.pre[i]
            [] OTHER -> TRUE
 StepOK == \A i \in 1..2 : Good4(i)
 
 \* a repaired defect seeded back (one deviation switch on): the contract is broken - reported as a
 \* DEVIATION line - but only on inputs of the class of that former finding
+\* (a contract broken while the thread's scratch state was dirty is of class history.<kind of the disturbance>)
+ClassesNow(i) == KnownClasses(last.pre[i], last.op) \cup (IF last.dk # "none" THEN {"history." \o last.dk} ELSE {})
 StepOKModKnown ==
     \A i \in 1..2 : ~Good4(i) =>
-        /\ KnownClasses(last.pre[i], last.op) # {}
-        /\ PrintT(<<"DEVIATION", ToJson(SetToSeq(KnownClasses(last.pre[i], last.op)))>>)
+        /\ ClassesNow(i) # {}
+        /\ PrintT(<<"DEVIATION", ToJson(SetToSeq(ClassesNow(i)))>>)
+
+\* history independence, stated directly: a decompress gives the same stream whatever the thread decoded before
+HistoryFree ==
+    (Disturbs /\ last.op = "decompress") =>
+        ss[last.i] = ImplDecompressT(last.pre[last.i], CleanRows, FALSE).s
 
 \* one line per operation kind (anti-vacuity: every action was taken)
 ActionPrint == steps = 1 => PrintT(<<"ACTION", ToJson(last.op)>>)
